@@ -244,6 +244,48 @@ func (b *byteSource) ReadByte() (byte, error) {
 	}
 }
 
+// copySink is the destination of io.Copy when a case drains the Reader that way.
+type copySink struct{ onWrite func(p []byte) }
+
+func (c *copySink) Write(p []byte) (int, error) { c.onWrite(p); return len(p), nil }
+
+// seekSource is an io.ReadSeeker whose Seek fails, like a file that is a pipe.
+type seekSource struct{ s *schedSource }
+
+func (b *seekSource) Read(p []byte) (int, error) { return b.s.Read(p) }
+func (b *seekSource) Seek(off int64, whence int) (int64, error) {
+	return 0, errors.New("seek: illegal seek")
+}
+
+// richSource also has WriteTo, Close, Len and Size.
+type richSource struct {
+	seekSource
+	size int
+}
+
+func (b *richSource) WriteTo(w io.Writer) (n int64, err error) {
+	buf := make([]byte, 512)
+	for {
+		k, e := b.s.Read(buf)
+		if k > 0 {
+			m, we := w.Write(buf[:k])
+			n += int64(m)
+			if we != nil {
+				return n, we
+			}
+		}
+		if e == io.EOF {
+			return n, nil
+		}
+		if e != nil {
+			return n, e
+		}
+	}
+}
+func (b *richSource) Close() error { return nil }
+func (b *richSource) Len() int     { return b.size - b.s.pos }
+func (b *richSource) Size() int64  { return int64(b.size) }
+
 // rrec records events with run-length merging: uniform successes (source
 // reads without error; caller Reads of the same buffer size without error
 // and with the same correctness flag) are accumulated in one pending Src and
@@ -463,6 +505,12 @@ func callerSource(spec RSource, data []byte, rec *rrec) (src io.Reader, ss *sche
 		return br, ss, func() int { return len(data) - (ss.pos - br.Buffered()) }, true
 	case "byteReader":
 		return &byteSource{ss}, ss, func() int { return len(data) - ss.pos }, true
+	case "seeker":
+		// what *os.File is for a pipe, a FIFO, a terminal or a socket: statically an io.Seeker, but not seekable
+		return &seekSource{ss}, ss, func() int { return len(data) - ss.pos }, false
+	case "rich":
+		// a source with the optional interfaces libraries like to test for
+		return &richSource{seekSource{ss}, len(data)}, ss, func() int { return len(data) - ss.pos }, false
 	default:
 		return struct{ io.Reader }{ss}, ss, func() int { return len(data) - ss.pos }, false
 	}
@@ -652,6 +700,46 @@ func execReaderCase(c *RCase, arch int, emit func(interface{})) {
 				calls, idle := 0, 0
 				for {
 					k := reads[calls%len(reads)]
+					if k < 0 && seg.Stop == 0 {
+						// the rest through io.Copy: it uses the Reader's WriteTo if it has one, Read otherwise
+						cw := &copySink{}
+						var cerr error
+						pan := ""
+						cw.onWrite = func(p []byte) {
+							g := rec.given
+							ok := g+len(p) <= len(refOut) && bytes.Equal(p, refOut[g:g+len(p)])
+							h.Write(p)
+							rec.read(maxInt(len(p), 1), len(p), "nil", "", ok, "")
+						}
+						func() {
+							defer func() {
+								if x := recover(); x != nil {
+									pan = panicString(x)
+								}
+							}()
+							_, cerr = io.Copy(cw, u.r)
+						}()
+						cls, det := "eof", ""
+						if cerr != nil {
+							cls, det = errClassR(cerr, ss)
+						}
+						rec.read(1, 0, cls, det, true, pan)
+						if pan == "" {
+							p := make([]byte, 16)
+							n2, e2 := 0, error(nil)
+							func() {
+								defer func() {
+									if x := recover(); x != nil {
+										pan = panicString(x)
+									}
+								}()
+								n2, e2 = u.r.Read(p)
+							}()
+							c2, d2 := errClassR(e2, ss)
+							rec.read(16, n2, c2, d2, n2 == 0, pan)
+						}
+						break
+					}
 					if k < 1 {
 						k = 1
 					}
